@@ -192,4 +192,896 @@ pub proof fn lemma_c05_moves_change_no_cell(o: Terminal, f: Terminal, fun: Funct
 {
 }
 
+// ---- non-interference: what a control function does to the visible terminal does not depend on
+// ---- the changed-line flags, the pending-trim flag or the scrollback above the view ------------
+
+/// two buffers show the same screen: same geometry and identical view rows (cells + wrap marks);
+/// the scrollback above the view, the trim flag and the scrollback limit may differ
+pub open spec fn view_eq(a: Buffer, b: Buffer) -> bool {
+    &&& a.cols == b.cols
+    &&& a.rows == b.rows
+    &&& forall|r: int| 0 <= r < a.rows ==> (#[trigger] a.row(r)).v() == b.row(r).v()
+}
+
+/// [C12,C14] everything a user can observe on the screen, and everything that influences what
+/// later input does, is equal; the terminals may differ in dirty flags, trim flags, scrollback
+/// content and scrollback limit
+pub open spec fn vis_eq(a: Terminal, b: Terminal) -> bool {
+    &&& a.cols == b.cols && a.rows == b.rows
+    &&& view_eq(a.buffer, b.buffer)
+    &&& view_eq(a.other_buffer, b.other_buffer)
+    // the inactive buffer is at the terminal's size (no resize happened while the other screen
+    // was showing): switching screens then never reflows
+    &&& a.other_buffer.cols == a.cols && a.other_buffer.rows == a.rows
+    &&& a.active_buffer_type == b.active_buffer_type
+    &&& a.cursor == b.cursor
+    &&& a.pending_wrap == b.pending_wrap
+    &&& a.pen == b.pen
+    &&& a.charsets[0] == b.charsets[0] && a.charsets[1] == b.charsets[1] && a.active_charset == b.active_charset
+    &&& a.tabs.0@ == b.tabs.0@
+    &&& a.insert_mode == b.insert_mode && a.origin_mode == b.origin_mode && a.auto_wrap_mode == b.auto_wrap_mode
+    &&& a.new_line_mode == b.new_line_mode && a.cursor_keys_mode == b.cursor_keys_mode
+    &&& a.top_margin == b.top_margin && a.bottom_margin == b.bottom_margin
+    &&& a.saved_ctx == b.saved_ctx && a.alternate_saved_ctx == b.alternate_saved_ctx
+    &&& a.xtwinops == b.xtwinops
+}
+
+/// two geometrically well-formed buffers with cell-wise equal views show the same screen
+pub proof fn lemma_view_eq_cells(a: Buffer, b: Buffer)
+    requires
+        a.wf_geom(), b.wf_geom(), a.cols == b.cols, a.rows == b.rows,
+        forall|r: int, c: int| 0 <= r < a.rows && 0 <= c < a.cols ==> (#[trigger] a.row(r).cells@[c]) == b.row(r).cells@[c],
+        forall|r: int| 0 <= r < a.rows ==> (#[trigger] a.row(r)).wrapped == b.row(r).wrapped,
+    ensures
+        view_eq(a, b),
+{
+    assert forall|r: int| 0 <= r < a.rows implies (#[trigger] a.row(r)).v() == b.row(r).v() by {
+        assert(a.row(r).cells@.len() == b.row(r).cells@.len());
+        assert(a.row(r).cells@ =~= b.row(r).cells@);
+    }
+}
+
+/// [C12,C14] non-interference of Bs: on vis-equal terminals the results are vis-equal
+pub proof fn lemma_ni_bs(o1: Terminal, o2: Terminal, f1: Terminal, f2: Terminal, fun: Function)
+    requires
+        o1.wf(), o2.wf(), vis_eq(o1, o2), fun is Bs,
+        exec_post(o1, f1, fun), exec_post(o2, f2, fun),
+    ensures
+        vis_eq(f1, f2),
+{
+}
+
+/// [C12,C14] non-interference of Cbt: on vis-equal terminals the results are vis-equal
+pub proof fn lemma_ni_cbt(o1: Terminal, o2: Terminal, f1: Terminal, f2: Terminal, fun: Function)
+    requires
+        o1.wf(), o2.wf(), vis_eq(o1, o2), fun is Cbt,
+        exec_post(o1, f1, fun), exec_post(o2, f2, fun),
+    ensures
+        vis_eq(f1, f2),
+{
+}
+
+/// [C12,C14] non-interference of Cha: on vis-equal terminals the results are vis-equal
+pub proof fn lemma_ni_cha(o1: Terminal, o2: Terminal, f1: Terminal, f2: Terminal, fun: Function)
+    requires
+        o1.wf(), o2.wf(), vis_eq(o1, o2), fun is Cha,
+        exec_post(o1, f1, fun), exec_post(o2, f2, fun),
+    ensures
+        vis_eq(f1, f2),
+{
+}
+
+/// [C12,C14] non-interference of Cht: on vis-equal terminals the results are vis-equal
+pub proof fn lemma_ni_cht(o1: Terminal, o2: Terminal, f1: Terminal, f2: Terminal, fun: Function)
+    requires
+        o1.wf(), o2.wf(), vis_eq(o1, o2), fun is Cht,
+        exec_post(o1, f1, fun), exec_post(o2, f2, fun),
+    ensures
+        vis_eq(f1, f2),
+{
+}
+
+/// [C12,C14] non-interference of Cnl: on vis-equal terminals the results are vis-equal
+pub proof fn lemma_ni_cnl(o1: Terminal, o2: Terminal, f1: Terminal, f2: Terminal, fun: Function)
+    requires
+        o1.wf(), o2.wf(), vis_eq(o1, o2), fun is Cnl,
+        exec_post(o1, f1, fun), exec_post(o2, f2, fun),
+    ensures
+        vis_eq(f1, f2),
+{
+}
+
+/// [C12,C14] non-interference of Cpl: on vis-equal terminals the results are vis-equal
+pub proof fn lemma_ni_cpl(o1: Terminal, o2: Terminal, f1: Terminal, f2: Terminal, fun: Function)
+    requires
+        o1.wf(), o2.wf(), vis_eq(o1, o2), fun is Cpl,
+        exec_post(o1, f1, fun), exec_post(o2, f2, fun),
+    ensures
+        vis_eq(f1, f2),
+{
+}
+
+/// [C12,C14] non-interference of Cr: on vis-equal terminals the results are vis-equal
+pub proof fn lemma_ni_cr(o1: Terminal, o2: Terminal, f1: Terminal, f2: Terminal, fun: Function)
+    requires
+        o1.wf(), o2.wf(), vis_eq(o1, o2), fun is Cr,
+        exec_post(o1, f1, fun), exec_post(o2, f2, fun),
+    ensures
+        vis_eq(f1, f2),
+{
+}
+
+/// [C12,C14] non-interference of Ctc: on vis-equal terminals the results are vis-equal
+pub proof fn lemma_ni_ctc(o1: Terminal, o2: Terminal, f1: Terminal, f2: Terminal, fun: Function)
+    requires
+        o1.wf(), o2.wf(), vis_eq(o1, o2), fun is Ctc,
+        exec_post(o1, f1, fun), exec_post(o2, f2, fun),
+    ensures
+        vis_eq(f1, f2),
+{
+}
+
+/// [C12,C14] non-interference of Cub: on vis-equal terminals the results are vis-equal
+pub proof fn lemma_ni_cub(o1: Terminal, o2: Terminal, f1: Terminal, f2: Terminal, fun: Function)
+    requires
+        o1.wf(), o2.wf(), vis_eq(o1, o2), fun is Cub,
+        exec_post(o1, f1, fun), exec_post(o2, f2, fun),
+    ensures
+        vis_eq(f1, f2),
+{
+}
+
+/// [C12,C14] non-interference of Cud: on vis-equal terminals the results are vis-equal
+pub proof fn lemma_ni_cud(o1: Terminal, o2: Terminal, f1: Terminal, f2: Terminal, fun: Function)
+    requires
+        o1.wf(), o2.wf(), vis_eq(o1, o2), fun is Cud,
+        exec_post(o1, f1, fun), exec_post(o2, f2, fun),
+    ensures
+        vis_eq(f1, f2),
+{
+}
+
+/// [C12,C14] non-interference of Cuf: on vis-equal terminals the results are vis-equal
+pub proof fn lemma_ni_cuf(o1: Terminal, o2: Terminal, f1: Terminal, f2: Terminal, fun: Function)
+    requires
+        o1.wf(), o2.wf(), vis_eq(o1, o2), fun is Cuf,
+        exec_post(o1, f1, fun), exec_post(o2, f2, fun),
+    ensures
+        vis_eq(f1, f2),
+{
+}
+
+/// [C12,C14] non-interference of Cup: on vis-equal terminals the results are vis-equal
+pub proof fn lemma_ni_cup(o1: Terminal, o2: Terminal, f1: Terminal, f2: Terminal, fun: Function)
+    requires
+        o1.wf(), o2.wf(), vis_eq(o1, o2), fun is Cup,
+        exec_post(o1, f1, fun), exec_post(o2, f2, fun),
+    ensures
+        vis_eq(f1, f2),
+{
+}
+
+/// [C12,C14] non-interference of Cuu: on vis-equal terminals the results are vis-equal
+pub proof fn lemma_ni_cuu(o1: Terminal, o2: Terminal, f1: Terminal, f2: Terminal, fun: Function)
+    requires
+        o1.wf(), o2.wf(), vis_eq(o1, o2), fun is Cuu,
+        exec_post(o1, f1, fun), exec_post(o2, f2, fun),
+    ensures
+        vis_eq(f1, f2),
+{
+}
+
+/// [C12,C14] non-interference of Dch: on vis-equal terminals the results are vis-equal
+pub proof fn lemma_ni_dch(o1: Terminal, o2: Terminal, f1: Terminal, f2: Terminal, fun: Function)
+    requires
+        o1.wf(), o2.wf(), vis_eq(o1, o2), fun is Dch,
+        exec_post(o1, f1, fun), exec_post(o2, f2, fun),
+    ensures
+        vis_eq(f1, f2),
+{
+}
+
+/// [C12,C14] non-interference of Decaln: on vis-equal terminals the results are vis-equal
+pub proof fn lemma_ni_decaln(o1: Terminal, o2: Terminal, f1: Terminal, f2: Terminal, fun: Function)
+    requires
+        o1.wf(), o2.wf(), vis_eq(o1, o2), fun is Decaln,
+        exec_post(o1, f1, fun), exec_post(o2, f2, fun),
+    ensures
+        vis_eq(f1, f2),
+{
+    assert forall|r: int, c: int| 0 <= r < o1.rows && 0 <= c < o1.cols implies (#[trigger] f1.buffer.row(r).cells@[c]) == f2.buffer.row(r).cells@[c] by {
+        assert(o1.buffer.row(r).v() == o2.buffer.row(r).v());
+    }
+    assert forall|r: int| 0 <= r < o1.rows implies (#[trigger] f1.buffer.row(r)).wrapped == f2.buffer.row(r).wrapped by {
+        assert(o1.buffer.row(r).v() == o2.buffer.row(r).v());
+    }
+    lemma_view_eq_cells(f1.buffer, f2.buffer);
+}
+
+/// [C12,C14] non-interference of Decrc: on vis-equal terminals the results are vis-equal
+pub proof fn lemma_ni_decrc(o1: Terminal, o2: Terminal, f1: Terminal, f2: Terminal, fun: Function)
+    requires
+        o1.wf(), o2.wf(), vis_eq(o1, o2), fun is Decrc,
+        exec_post(o1, f1, fun), exec_post(o2, f2, fun),
+    ensures
+        vis_eq(f1, f2),
+{
+}
+
+/// [C12,C14] non-interference of Decsc: on vis-equal terminals the results are vis-equal
+pub proof fn lemma_ni_decsc(o1: Terminal, o2: Terminal, f1: Terminal, f2: Terminal, fun: Function)
+    requires
+        o1.wf(), o2.wf(), vis_eq(o1, o2), fun is Decsc,
+        exec_post(o1, f1, fun), exec_post(o2, f2, fun),
+    ensures
+        vis_eq(f1, f2),
+{
+}
+
+/// [C12,C14] non-interference of Decstbm: on vis-equal terminals the results are vis-equal
+pub proof fn lemma_ni_decstbm(o1: Terminal, o2: Terminal, f1: Terminal, f2: Terminal, fun: Function)
+    requires
+        o1.wf(), o2.wf(), vis_eq(o1, o2), fun is Decstbm,
+        exec_post(o1, f1, fun), exec_post(o2, f2, fun),
+    ensures
+        vis_eq(f1, f2),
+{
+}
+
+/// [C12,C14] non-interference of Decstr: on vis-equal terminals the results are vis-equal
+pub proof fn lemma_ni_decstr(o1: Terminal, o2: Terminal, f1: Terminal, f2: Terminal, fun: Function)
+    requires
+        o1.wf(), o2.wf(), vis_eq(o1, o2), fun is Decstr,
+        exec_post(o1, f1, fun), exec_post(o2, f2, fun),
+    ensures
+        vis_eq(f1, f2),
+{
+}
+
+/// [C12,C14] non-interference of Dl: on vis-equal terminals the results are vis-equal
+pub proof fn lemma_ni_dl(o1: Terminal, o2: Terminal, f1: Terminal, f2: Terminal, fun: Function)
+    requires
+        o1.wf(), o2.wf(), vis_eq(o1, o2), fun is Dl,
+        exec_post(o1, f1, fun), exec_post(o2, f2, fun),
+    ensures
+        vis_eq(f1, f2),
+{
+}
+
+/// [C12,C14] non-interference of Ech: on vis-equal terminals the results are vis-equal
+pub proof fn lemma_ni_ech(o1: Terminal, o2: Terminal, f1: Terminal, f2: Terminal, fun: Function)
+    requires
+        o1.wf(), o2.wf(), vis_eq(o1, o2), fun is Ech,
+        exec_post(o1, f1, fun), exec_post(o2, f2, fun),
+    ensures
+        vis_eq(f1, f2),
+{
+    assert forall|r: int, c: int| 0 <= r < o1.rows && 0 <= c < o1.cols implies (#[trigger] f1.buffer.row(r).cells@[c]) == f2.buffer.row(r).cells@[c] by {
+        assert(o1.buffer.row(r).v() == o2.buffer.row(r).v());
+    }
+    assert forall|r: int| 0 <= r < o1.rows implies (#[trigger] f1.buffer.row(r)).wrapped == f2.buffer.row(r).wrapped by {
+        assert(o1.buffer.row(r).v() == o2.buffer.row(r).v());
+    }
+    lemma_view_eq_cells(f1.buffer, f2.buffer);
+}
+
+/// [C12,C14] non-interference of Ed: on vis-equal terminals the results are vis-equal
+pub proof fn lemma_ni_ed(o1: Terminal, o2: Terminal, f1: Terminal, f2: Terminal, fun: Function)
+    requires
+        o1.wf(), o2.wf(), vis_eq(o1, o2), fun is Ed,
+        exec_post(o1, f1, fun), exec_post(o2, f2, fun),
+    ensures
+        vis_eq(f1, f2),
+{
+    assert forall|r: int, c: int| 0 <= r < o1.rows && 0 <= c < o1.cols implies (#[trigger] f1.buffer.row(r).cells@[c]) == f2.buffer.row(r).cells@[c] by {
+        assert(o1.buffer.row(r).v() == o2.buffer.row(r).v());
+    }
+    assert forall|r: int| 0 <= r < o1.rows implies (#[trigger] f1.buffer.row(r)).wrapped == f2.buffer.row(r).wrapped by {
+        assert(o1.buffer.row(r).v() == o2.buffer.row(r).v());
+    }
+    lemma_view_eq_cells(f1.buffer, f2.buffer);
+}
+
+/// [C12,C14] non-interference of El: on vis-equal terminals the results are vis-equal
+pub proof fn lemma_ni_el(o1: Terminal, o2: Terminal, f1: Terminal, f2: Terminal, fun: Function)
+    requires
+        o1.wf(), o2.wf(), vis_eq(o1, o2), fun is El,
+        exec_post(o1, f1, fun), exec_post(o2, f2, fun),
+    ensures
+        vis_eq(f1, f2),
+{
+    assert forall|r: int, c: int| 0 <= r < o1.rows && 0 <= c < o1.cols implies (#[trigger] f1.buffer.row(r).cells@[c]) == f2.buffer.row(r).cells@[c] by {
+        assert(o1.buffer.row(r).v() == o2.buffer.row(r).v());
+    }
+    assert forall|r: int| 0 <= r < o1.rows implies (#[trigger] f1.buffer.row(r)).wrapped == f2.buffer.row(r).wrapped by {
+        assert(o1.buffer.row(r).v() == o2.buffer.row(r).v());
+    }
+    lemma_view_eq_cells(f1.buffer, f2.buffer);
+}
+
+/// [C12,C14] non-interference of G1d4: on vis-equal terminals the results are vis-equal
+pub proof fn lemma_ni_g1d4(o1: Terminal, o2: Terminal, f1: Terminal, f2: Terminal, fun: Function)
+    requires
+        o1.wf(), o2.wf(), vis_eq(o1, o2), fun is G1d4,
+        exec_post(o1, f1, fun), exec_post(o2, f2, fun),
+    ensures
+        vis_eq(f1, f2),
+{
+}
+
+/// [C12,C14] non-interference of Gzd4: on vis-equal terminals the results are vis-equal
+pub proof fn lemma_ni_gzd4(o1: Terminal, o2: Terminal, f1: Terminal, f2: Terminal, fun: Function)
+    requires
+        o1.wf(), o2.wf(), vis_eq(o1, o2), fun is Gzd4,
+        exec_post(o1, f1, fun), exec_post(o2, f2, fun),
+    ensures
+        vis_eq(f1, f2),
+{
+}
+
+/// [C12,C14] non-interference of Ht: on vis-equal terminals the results are vis-equal
+pub proof fn lemma_ni_ht(o1: Terminal, o2: Terminal, f1: Terminal, f2: Terminal, fun: Function)
+    requires
+        o1.wf(), o2.wf(), vis_eq(o1, o2), fun is Ht,
+        exec_post(o1, f1, fun), exec_post(o2, f2, fun),
+    ensures
+        vis_eq(f1, f2),
+{
+}
+
+/// [C12,C14] non-interference of Hts: on vis-equal terminals the results are vis-equal
+pub proof fn lemma_ni_hts(o1: Terminal, o2: Terminal, f1: Terminal, f2: Terminal, fun: Function)
+    requires
+        o1.wf(), o2.wf(), vis_eq(o1, o2), fun is Hts,
+        exec_post(o1, f1, fun), exec_post(o2, f2, fun),
+    ensures
+        vis_eq(f1, f2),
+{
+}
+
+/// [C12,C14] non-interference of Ich: on vis-equal terminals the results are vis-equal
+pub proof fn lemma_ni_ich(o1: Terminal, o2: Terminal, f1: Terminal, f2: Terminal, fun: Function)
+    requires
+        o1.wf(), o2.wf(), vis_eq(o1, o2), fun is Ich,
+        exec_post(o1, f1, fun), exec_post(o2, f2, fun),
+    ensures
+        vis_eq(f1, f2),
+{
+}
+
+/// [C12,C14] non-interference of Il: on vis-equal terminals the results are vis-equal
+pub proof fn lemma_ni_il(o1: Terminal, o2: Terminal, f1: Terminal, f2: Terminal, fun: Function)
+    requires
+        o1.wf(), o2.wf(), vis_eq(o1, o2), fun is Il,
+        exec_post(o1, f1, fun), exec_post(o2, f2, fun),
+    ensures
+        vis_eq(f1, f2),
+{
+}
+
+/// [C12,C14] non-interference of Lf: on vis-equal terminals the results are vis-equal
+pub proof fn lemma_ni_lf(o1: Terminal, o2: Terminal, f1: Terminal, f2: Terminal, fun: Function)
+    requires
+        o1.wf(), o2.wf(), vis_eq(o1, o2), fun is Lf,
+        exec_post(o1, f1, fun), exec_post(o2, f2, fun),
+    ensures
+        vis_eq(f1, f2),
+{
+}
+
+/// [C12,C14] non-interference of Nel: on vis-equal terminals the results are vis-equal
+pub proof fn lemma_ni_nel(o1: Terminal, o2: Terminal, f1: Terminal, f2: Terminal, fun: Function)
+    requires
+        o1.wf(), o2.wf(), vis_eq(o1, o2), fun is Nel,
+        exec_post(o1, f1, fun), exec_post(o2, f2, fun),
+    ensures
+        vis_eq(f1, f2),
+{
+}
+
+/// [C12,C14] non-interference of Print: on vis-equal terminals the results are vis-equal
+pub proof fn lemma_ni_print(o1: Terminal, o2: Terminal, f1: Terminal, f2: Terminal, fun: Function)
+    requires
+        o1.wf(), o2.wf(), vis_eq(o1, o2), fun is Print,
+        exec_post(o1, f1, fun), exec_post(o2, f2, fun),
+    ensures
+        vis_eq(f1, f2),
+{
+}
+
+/// a chain of `n` prints of the same character from vis-equal terminals ends vis-equal
+pub proof fn lemma_ni_print_chain(tr1: Seq<Terminal>, tr2: Seq<Terminal>, ch: char, n: int, k: int)
+    requires
+        0 <= k <= n, tr1.len() == n + 1, tr2.len() == n + 1,
+        tr1[0].wf(), tr2[0].wf(), vis_eq(tr1[0], tr2[0]),
+        forall|i: int| 0 <= i < n ==> post_print(#[trigger] tr1[i], tr1[i + 1], ch),
+        forall|i: int| 0 <= i < n ==> post_print(#[trigger] tr2[i], tr2[i + 1], ch),
+    ensures
+        vis_eq(tr1[k], tr2[k]), tr1[k].wf(), tr2[k].wf(),
+    decreases k,
+{
+    if k > 0 {
+        lemma_ni_print_chain(tr1, tr2, ch, n, k - 1);
+        assert(post_print(tr1[k - 1], tr1[k - 1 + 1], ch));
+        assert(post_print(tr2[k - 1], tr2[k - 1 + 1], ch));
+        lemma_ni_print(tr1[k - 1], tr2[k - 1], tr1[k], tr2[k], Function::Print(ch));
+    }
+}
+
+/// [C12,C14] non-interference of Rep: on vis-equal terminals the results are vis-equal
+pub proof fn lemma_ni_rep(o1: Terminal, o2: Terminal, f1: Terminal, f2: Terminal, fun: Function)
+    requires
+        o1.wf(), o2.wf(), vis_eq(o1, o2), fun is Rep,
+        exec_post(o1, f1, fun), exec_post(o2, f2, fun),
+    ensures
+        vis_eq(f1, f2),
+{
+    let n = fun->Rep_0;
+    if o1.cursor.col > 0 {
+        let k = param_or(n, 1);
+        assert(o1.buffer.row(o1.cursor.row as int).v() == o2.buffer.row(o2.cursor.row as int).v());
+        let ch = o1.buffer.row(o1.cursor.row as int).cells@[o1.cursor.col - 1].0;
+        let tr1 = choose|tr: Seq<Terminal>| #[trigger] tr.len() == k + 1 && tr[0] == o1 && tr[k] == f1 && (forall|i: int| 0 <= i < k ==> post_print(#[trigger] tr[i], tr[i + 1], ch));
+        let tr2 = choose|tr: Seq<Terminal>| #[trigger] tr.len() == k + 1 && tr[0] == o2 && tr[k] == f2 && (forall|i: int| 0 <= i < k ==> post_print(#[trigger] tr[i], tr[i + 1], ch));
+        lemma_ni_print_chain(tr1, tr2, ch, k, k);
+    }
+}
+
+
+/// [C12,C14] non-interference of Ri: on vis-equal terminals the results are vis-equal
+pub proof fn lemma_ni_ri(o1: Terminal, o2: Terminal, f1: Terminal, f2: Terminal, fun: Function)
+    requires
+        o1.wf(), o2.wf(), vis_eq(o1, o2), fun is Ri,
+        exec_post(o1, f1, fun), exec_post(o2, f2, fun),
+    ensures
+        vis_eq(f1, f2),
+{
+}
+
+/// [C12,C14] non-interference of Rm: on vis-equal terminals the results are vis-equal
+pub proof fn lemma_ni_rm(o1: Terminal, o2: Terminal, f1: Terminal, f2: Terminal, fun: Function)
+    requires
+        o1.wf(), o2.wf(), vis_eq(o1, o2), fun is Rm,
+        exec_post(o1, f1, fun), exec_post(o2, f2, fun),
+    ensures
+        vis_eq(f1, f2),
+{
+}
+
+/// [C12,C14] non-interference of Scorc: on vis-equal terminals the results are vis-equal
+pub proof fn lemma_ni_scorc(o1: Terminal, o2: Terminal, f1: Terminal, f2: Terminal, fun: Function)
+    requires
+        o1.wf(), o2.wf(), vis_eq(o1, o2), fun is Scorc,
+        exec_post(o1, f1, fun), exec_post(o2, f2, fun),
+    ensures
+        vis_eq(f1, f2),
+{
+}
+
+/// [C12,C14] non-interference of Scosc: on vis-equal terminals the results are vis-equal
+pub proof fn lemma_ni_scosc(o1: Terminal, o2: Terminal, f1: Terminal, f2: Terminal, fun: Function)
+    requires
+        o1.wf(), o2.wf(), vis_eq(o1, o2), fun is Scosc,
+        exec_post(o1, f1, fun), exec_post(o2, f2, fun),
+    ensures
+        vis_eq(f1, f2),
+{
+}
+
+/// [C12,C14] non-interference of Sd: on vis-equal terminals the results are vis-equal
+pub proof fn lemma_ni_sd(o1: Terminal, o2: Terminal, f1: Terminal, f2: Terminal, fun: Function)
+    requires
+        o1.wf(), o2.wf(), vis_eq(o1, o2), fun is Sd,
+        exec_post(o1, f1, fun), exec_post(o2, f2, fun),
+    ensures
+        vis_eq(f1, f2),
+{
+}
+
+/// [C12,C14] non-interference of Sgr: on vis-equal terminals the results are vis-equal
+pub proof fn lemma_ni_sgr(o1: Terminal, o2: Terminal, f1: Terminal, f2: Terminal, fun: Function)
+    requires
+        o1.wf(), o2.wf(), vis_eq(o1, o2), fun is Sgr,
+        exec_post(o1, f1, fun), exec_post(o2, f2, fun),
+    ensures
+        vis_eq(f1, f2),
+{
+}
+
+/// [C12,C14] non-interference of Si: on vis-equal terminals the results are vis-equal
+pub proof fn lemma_ni_si(o1: Terminal, o2: Terminal, f1: Terminal, f2: Terminal, fun: Function)
+    requires
+        o1.wf(), o2.wf(), vis_eq(o1, o2), fun is Si,
+        exec_post(o1, f1, fun), exec_post(o2, f2, fun),
+    ensures
+        vis_eq(f1, f2),
+{
+}
+
+/// [C12,C14] non-interference of Sm: on vis-equal terminals the results are vis-equal
+pub proof fn lemma_ni_sm(o1: Terminal, o2: Terminal, f1: Terminal, f2: Terminal, fun: Function)
+    requires
+        o1.wf(), o2.wf(), vis_eq(o1, o2), fun is Sm,
+        exec_post(o1, f1, fun), exec_post(o2, f2, fun),
+    ensures
+        vis_eq(f1, f2),
+{
+}
+
+/// [C12,C14] non-interference of So: on vis-equal terminals the results are vis-equal
+pub proof fn lemma_ni_so(o1: Terminal, o2: Terminal, f1: Terminal, f2: Terminal, fun: Function)
+    requires
+        o1.wf(), o2.wf(), vis_eq(o1, o2), fun is So,
+        exec_post(o1, f1, fun), exec_post(o2, f2, fun),
+    ensures
+        vis_eq(f1, f2),
+{
+}
+
+/// [C12,C14] non-interference of Su: on vis-equal terminals the results are vis-equal
+pub proof fn lemma_ni_su(o1: Terminal, o2: Terminal, f1: Terminal, f2: Terminal, fun: Function)
+    requires
+        o1.wf(), o2.wf(), vis_eq(o1, o2), fun is Su,
+        exec_post(o1, f1, fun), exec_post(o2, f2, fun),
+    ensures
+        vis_eq(f1, f2),
+{
+}
+
+/// [C12,C14] non-interference of Tbc: on vis-equal terminals the results are vis-equal
+pub proof fn lemma_ni_tbc(o1: Terminal, o2: Terminal, f1: Terminal, f2: Terminal, fun: Function)
+    requires
+        o1.wf(), o2.wf(), vis_eq(o1, o2), fun is Tbc,
+        exec_post(o1, f1, fun), exec_post(o2, f2, fun),
+    ensures
+        vis_eq(f1, f2),
+{
+}
+
+/// [C12,C14] non-interference of Vpa: on vis-equal terminals the results are vis-equal
+pub proof fn lemma_ni_vpa(o1: Terminal, o2: Terminal, f1: Terminal, f2: Terminal, fun: Function)
+    requires
+        o1.wf(), o2.wf(), vis_eq(o1, o2), fun is Vpa,
+        exec_post(o1, f1, fun), exec_post(o2, f2, fun),
+    ensures
+        vis_eq(f1, f2),
+{
+}
+
+/// [C12,C14] non-interference of Vpr: on vis-equal terminals the results are vis-equal
+pub proof fn lemma_ni_vpr(o1: Terminal, o2: Terminal, f1: Terminal, f2: Terminal, fun: Function)
+    requires
+        o1.wf(), o2.wf(), vis_eq(o1, o2), fun is Vpr,
+        exec_post(o1, f1, fun), exec_post(o2, f2, fun),
+    ensures
+        vis_eq(f1, f2),
+{
+}
+
+// ---- mode functions: DECSET / DECRST, composed from the helpers' postconditions -----------------
+
+/// [C12,C14] state in which `reflow()` is a no-op on the screen: the active buffer already has the
+/// terminal's size (always true when no resize happened while the other screen was showing)
+pub open spec fn sized(t: Terminal) -> bool {
+    t.buffer.cols == t.cols && t.buffer.rows == t.rows
+}
+
+/// vis_eq without the requirement that the active buffer be at the terminal's size-independent
+/// parts: used between a screen switch and the reflow that follows it
+pub proof fn lemma_ni_save_cursor(o1: Terminal, o2: Terminal, f1: Terminal, f2: Terminal)
+    requires o1.wf(), o2.wf(), vis_eq(o1, o2), post_save_cursor(o1, f1), post_save_cursor(o2, f2),
+    ensures vis_eq(f1, f2), f1.wf(), f2.wf(),
+{
+}
+
+pub proof fn lemma_ni_restore_cursor(o1: Terminal, o2: Terminal, f1: Terminal, f2: Terminal)
+    requires vis_eq(o1, o2), post_restore_cursor(o1, f1), post_restore_cursor(o2, f2),
+    ensures vis_eq(f1, f2),
+{
+}
+
+pub proof fn lemma_ni_home(o1: Terminal, o2: Terminal, f1: Terminal, f2: Terminal)
+    requires vis_eq(o1, o2), post_move_cursor_home(o1, f1), post_move_cursor_home(o2, f2),
+    ensures vis_eq(f1, f2), f1.wf(), f2.wf(),
+{
+}
+
+pub proof fn lemma_ni_switch_alt(o1: Terminal, o2: Terminal, f1: Terminal, f2: Terminal)
+    requires o1.wf(), o2.wf(), vis_eq(o1, o2), post_switch_to_alternate_buffer(o1, f1), post_switch_to_alternate_buffer(o2, f2),
+    ensures vis_eq(f1, f2), sized(f1), sized(f2),
+{
+    assert forall|r: int| 0 <= r < f1.buffer.rows implies (#[trigger] f1.buffer.row(r)).v() == f2.buffer.row(r).v() by {
+        if o1.active_buffer_type == BufferType::Primary {
+            assert(f1.buffer.row(r) == f1.buffer.lines@[r]);
+            assert(f2.buffer.row(r) == f2.buffer.lines@[r]);
+        } else {
+            assert(o1.buffer.row(r).v() == o2.buffer.row(r).v());
+        }
+    }
+}
+
+pub proof fn lemma_ni_switch_primary(o1: Terminal, o2: Terminal, f1: Terminal, f2: Terminal)
+    requires o1.wf(), o2.wf(), vis_eq(o1, o2), post_switch_to_primary_buffer(o1, f1), post_switch_to_primary_buffer(o2, f2),
+    ensures vis_eq(f1, f2), sized(f1), sized(f2),
+{
+}
+
+pub proof fn lemma_ni_reflow_sized(o1: Terminal, o2: Terminal, f1: Terminal, f2: Terminal)
+    requires vis_eq(o1, o2), sized(o1), sized(o2), post_reflow(o1, f1), post_reflow(o2, f2),
+    ensures vis_eq(f1, f2), f1.wf(), f2.wf(),
+{
+    assert forall|r: int| 0 <= r < f1.buffer.rows implies (#[trigger] f1.buffer.row(r)).v() == f2.buffer.row(r).v() by {
+        assert(f1.buffer.row(r) == o1.buffer.row(r));
+        assert(f2.buffer.row(r) == o2.buffer.row(r));
+        assert(o1.buffer.row(r).v() == o2.buffer.row(r).v());
+    }
+}
+
+/// [C12,C14] non-interference of one DECSET mode
+pub proof fn lemma_ni_decset_one(o1: Terminal, o2: Terminal, f1: Terminal, f2: Terminal, m: DecMode)
+    requires
+        o1.wf(), o2.wf(), vis_eq(o1, o2),
+        decset_one(o1, f1, m), decset_one(o2, f2, m),
+    ensures
+        vis_eq(f1, f2), f1.wf(), f2.wf(),
+{
+    reveal(decset_one);
+    match m {
+        DecMode::AltScreenBuffer => {
+            let a1 = choose|a: Terminal| #[trigger] post_switch_to_alternate_buffer(o1, a) && post_reflow(a, f1);
+            let a2 = choose|a: Terminal| #[trigger] post_switch_to_alternate_buffer(o2, a) && post_reflow(a, f2);
+            lemma_ni_switch_alt(o1, o2, a1, a2);
+            lemma_ni_reflow_sized(a1, a2, f1, f2);
+        },
+        DecMode::SaveCursorAltScreenBuffer => {
+            let (s1, a1) = choose|s: Terminal, a: Terminal| #[trigger] post_save_cursor(o1, s) && #[trigger] post_switch_to_alternate_buffer(s, a) && post_reflow(a, f1);
+            let (s2, a2) = choose|s: Terminal, a: Terminal| #[trigger] post_save_cursor(o2, s) && #[trigger] post_switch_to_alternate_buffer(s, a) && post_reflow(a, f2);
+            lemma_ni_save_cursor(o1, o2, s1, s2);
+            lemma_ni_switch_alt(s1, s2, a1, a2);
+            lemma_ni_reflow_sized(a1, a2, f1, f2);
+        },
+        DecMode::SaveCursor => { lemma_ni_save_cursor(o1, o2, f1, f2); },
+        DecMode::Origin => { lemma_ni_home(Terminal { origin_mode: true, ..o1 }, Terminal { origin_mode: true, ..o2 }, f1, f2); },
+        DecMode::CursorKeys => {},
+        DecMode::AutoWrap => {},
+        DecMode::TextCursorEnable => {},
+    }
+}
+
+/// [C12,C14] non-interference of one DECRST mode
+pub proof fn lemma_ni_decrst_one(o1: Terminal, o2: Terminal, f1: Terminal, f2: Terminal, m: DecMode)
+    requires
+        o1.wf(), o2.wf(), vis_eq(o1, o2),
+        decrst_one(o1, f1, m), decrst_one(o2, f2, m),
+    ensures
+        vis_eq(f1, f2), f1.wf(), f2.wf(),
+{
+    reveal(decrst_one);
+    match m {
+        DecMode::AltScreenBuffer => {
+            let a1 = choose|a: Terminal| #[trigger] post_switch_to_primary_buffer(o1, a) && post_reflow(a, f1);
+            let a2 = choose|a: Terminal| #[trigger] post_switch_to_primary_buffer(o2, a) && post_reflow(a, f2);
+            lemma_ni_switch_primary(o1, o2, a1, a2);
+            lemma_ni_reflow_sized(a1, a2, f1, f2);
+        },
+        DecMode::SaveCursorAltScreenBuffer => {
+            let (a1, b1) = choose|a: Terminal, b: Terminal| #[trigger] post_switch_to_primary_buffer(o1, a) && #[trigger] post_restore_cursor(a, b) && post_reflow(b, f1);
+            let (a2, b2) = choose|a: Terminal, b: Terminal| #[trigger] post_switch_to_primary_buffer(o2, a) && #[trigger] post_restore_cursor(a, b) && post_reflow(b, f2);
+            lemma_ni_switch_primary(o1, o2, a1, a2);
+            lemma_ni_restore_cursor(a1, a2, b1, b2);
+            assert(sized(b1) && sized(b2));
+            lemma_ni_reflow_sized(b1, b2, f1, f2);
+        },
+        DecMode::SaveCursor => { lemma_ni_restore_cursor(o1, o2, f1, f2); },
+        DecMode::Origin => { lemma_ni_home(Terminal { origin_mode: false, ..o1 }, Terminal { origin_mode: false, ..o2 }, f1, f2); },
+        DecMode::CursorKeys => {},
+        DecMode::AutoWrap => {},
+        DecMode::TextCursorEnable => {},
+    }
+}
+
+pub proof fn lemma_ni_decset_chain(tr1: Seq<Terminal>, tr2: Seq<Terminal>, modes: Seq<DecMode>, k: int)
+    requires
+        0 <= k <= modes.len(), tr1.len() == modes.len() + 1, tr2.len() == modes.len() + 1,
+        tr1[0].wf(), tr2[0].wf(), vis_eq(tr1[0], tr2[0]),
+        forall|i: int| 0 <= i < modes.len() ==> decset_one(#[trigger] tr1[i], tr1[i + 1], modes[i]),
+        forall|i: int| 0 <= i < modes.len() ==> decset_one(#[trigger] tr2[i], tr2[i + 1], modes[i]),
+    ensures
+        vis_eq(tr1[k], tr2[k]), tr1[k].wf(), tr2[k].wf(),
+    decreases k,
+{
+    if k > 0 {
+        lemma_ni_decset_chain(tr1, tr2, modes, k - 1);
+        assert(decset_one(tr1[k - 1], tr1[k - 1 + 1], modes[k - 1]));
+        assert(decset_one(tr2[k - 1], tr2[k - 1 + 1], modes[k - 1]));
+        lemma_ni_decset_one(tr1[k - 1], tr2[k - 1], tr1[k], tr2[k], modes[k - 1]);
+    }
+}
+
+pub proof fn lemma_ni_decrst_chain(tr1: Seq<Terminal>, tr2: Seq<Terminal>, modes: Seq<DecMode>, k: int)
+    requires
+        0 <= k <= modes.len(), tr1.len() == modes.len() + 1, tr2.len() == modes.len() + 1,
+        tr1[0].wf(), tr2[0].wf(), vis_eq(tr1[0], tr2[0]),
+        forall|i: int| 0 <= i < modes.len() ==> decrst_one(#[trigger] tr1[i], tr1[i + 1], modes[i]),
+        forall|i: int| 0 <= i < modes.len() ==> decrst_one(#[trigger] tr2[i], tr2[i + 1], modes[i]),
+    ensures
+        vis_eq(tr1[k], tr2[k]), tr1[k].wf(), tr2[k].wf(),
+    decreases k,
+{
+    if k > 0 {
+        lemma_ni_decrst_chain(tr1, tr2, modes, k - 1);
+        assert(decrst_one(tr1[k - 1], tr1[k - 1 + 1], modes[k - 1]));
+        assert(decrst_one(tr2[k - 1], tr2[k - 1 + 1], modes[k - 1]));
+        lemma_ni_decrst_one(tr1[k - 1], tr2[k - 1], tr1[k], tr2[k], modes[k - 1]);
+    }
+}
+
+/// [C12,C14] non-interference of Decset
+pub proof fn lemma_ni_decset(o1: Terminal, o2: Terminal, f1: Terminal, f2: Terminal, fun: Function)
+    requires
+        o1.wf(), o2.wf(), vis_eq(o1, o2), fun is Decset,
+        exec_post(o1, f1, fun), exec_post(o2, f2, fun),
+    ensures
+        vis_eq(f1, f2),
+{
+    let modes = fun->Decset_0;
+    let n = modes@.len() as int;
+    let tr1 = choose|tr: Seq<Terminal>| #[trigger] tr.len() == modes@.len() + 1 && tr[0] == o1 && tr[modes@.len() as int] == f1 && (forall|i: int| 0 <= i < modes@.len() ==> decset_one(#[trigger] tr[i], tr[i + 1], modes@[i]));
+    let tr2 = choose|tr: Seq<Terminal>| #[trigger] tr.len() == modes@.len() + 1 && tr[0] == o2 && tr[modes@.len() as int] == f2 && (forall|i: int| 0 <= i < modes@.len() ==> decset_one(#[trigger] tr[i], tr[i + 1], modes@[i]));
+    lemma_ni_decset_chain(tr1, tr2, modes@, n);
+}
+
+/// [C12,C14] non-interference of Decrst
+pub proof fn lemma_ni_decrst(o1: Terminal, o2: Terminal, f1: Terminal, f2: Terminal, fun: Function)
+    requires
+        o1.wf(), o2.wf(), vis_eq(o1, o2), fun is Decrst,
+        exec_post(o1, f1, fun), exec_post(o2, f2, fun),
+    ensures
+        vis_eq(f1, f2),
+{
+    let modes = fun->Decrst_0;
+    let n = modes@.len() as int;
+    let tr1 = choose|tr: Seq<Terminal>| #[trigger] tr.len() == modes@.len() + 1 && tr[0] == o1 && tr[modes@.len() as int] == f1 && (forall|i: int| 0 <= i < modes@.len() ==> decrst_one(#[trigger] tr[i], tr[i + 1], modes@[i]));
+    let tr2 = choose|tr: Seq<Terminal>| #[trigger] tr.len() == modes@.len() + 1 && tr[0] == o2 && tr[modes@.len() as int] == f2 && (forall|i: int| 0 <= i < modes@.len() ==> decrst_one(#[trigger] tr[i], tr[i + 1], modes@[i]));
+    lemma_ni_decrst_chain(tr1, tr2, modes@, n);
+}
+
+/// [C12] non-interference of Ris: both results are the power-on state of the same geometry
+pub proof fn lemma_ni_ris(o1: Terminal, o2: Terminal, f1: Terminal, f2: Terminal, fun: Function)
+    requires
+        o1.wf(), o2.wf(), vis_eq(o1, o2), fun is Ris,
+        exec_post(o1, f1, fun), exec_post(o2, f2, fun),
+    ensures
+        vis_eq(f1, f2),
+{
+    assert forall|r: int| 0 <= r < f1.rows implies (#[trigger] f1.buffer.row(r)).v() == f2.buffer.row(r).v() by {
+        assert(f1.buffer.row(r) == f1.buffer.lines@[r]);
+        assert(f2.buffer.row(r) == f2.buffer.lines@[r]);
+    }
+    assert forall|r: int| 0 <= r < f1.rows implies (#[trigger] f1.other_buffer.row(r)).v() == f2.other_buffer.row(r).v() by {
+        assert(f1.other_buffer.row(r) == f1.other_buffer.lines@[r]);
+        assert(f2.other_buffer.row(r) == f2.other_buffer.lines@[r]);
+    }
+}
+
+/// [C12,C14] NON-INTERFERENCE: executing the same control function on two terminals that agree on
+/// everything visible (but may differ in changed-line flags, pending-trim flag, scrollback content
+/// above the view and scrollback limit) leaves them agreeing on everything visible.
+/// (XTWINOPS is excluded: window resizing is disabled in this build, `xtwinops == false`.)
+pub proof fn lemma_ni_step(o1: Terminal, o2: Terminal, f1: Terminal, f2: Terminal, fun: Function)
+    requires
+        o1.wf(), o2.wf(), vis_eq(o1, o2), !(fun is Xtwinops),
+        exec_post(o1, f1, fun), exec_post(o2, f2, fun),
+    ensures
+        vis_eq(f1, f2),
+{
+    match fun {
+        Function::Bs => lemma_ni_bs(o1, o2, f1, f2, fun), Function::Cbt(_) => lemma_ni_cbt(o1, o2, f1, f2, fun),
+        Function::Cha(_) => lemma_ni_cha(o1, o2, f1, f2, fun), Function::Cht(_) => lemma_ni_cht(o1, o2, f1, f2, fun),
+        Function::Cnl(_) => lemma_ni_cnl(o1, o2, f1, f2, fun), Function::Cpl(_) => lemma_ni_cpl(o1, o2, f1, f2, fun),
+        Function::Cr => lemma_ni_cr(o1, o2, f1, f2, fun), Function::Ctc(_) => lemma_ni_ctc(o1, o2, f1, f2, fun),
+        Function::Cub(_) => lemma_ni_cub(o1, o2, f1, f2, fun), Function::Cud(_) => lemma_ni_cud(o1, o2, f1, f2, fun),
+        Function::Cuf(_) => lemma_ni_cuf(o1, o2, f1, f2, fun), Function::Cup(_, _) => lemma_ni_cup(o1, o2, f1, f2, fun),
+        Function::Cuu(_) => lemma_ni_cuu(o1, o2, f1, f2, fun), Function::Dch(_) => lemma_ni_dch(o1, o2, f1, f2, fun),
+        Function::Decaln => lemma_ni_decaln(o1, o2, f1, f2, fun), Function::Decrc => lemma_ni_decrc(o1, o2, f1, f2, fun),
+        Function::Decrst(_) => lemma_ni_decrst(o1, o2, f1, f2, fun), Function::Decsc => lemma_ni_decsc(o1, o2, f1, f2, fun),
+        Function::Decset(_) => lemma_ni_decset(o1, o2, f1, f2, fun), Function::Decstbm(_, _) => lemma_ni_decstbm(o1, o2, f1, f2, fun),
+        Function::Decstr => lemma_ni_decstr(o1, o2, f1, f2, fun), Function::Dl(_) => lemma_ni_dl(o1, o2, f1, f2, fun),
+        Function::Ech(_) => lemma_ni_ech(o1, o2, f1, f2, fun), Function::Ed(_) => lemma_ni_ed(o1, o2, f1, f2, fun),
+        Function::El(_) => lemma_ni_el(o1, o2, f1, f2, fun), Function::G1d4(_) => lemma_ni_g1d4(o1, o2, f1, f2, fun),
+        Function::Gzd4(_) => lemma_ni_gzd4(o1, o2, f1, f2, fun), Function::Ht => lemma_ni_ht(o1, o2, f1, f2, fun),
+        Function::Hts => lemma_ni_hts(o1, o2, f1, f2, fun), Function::Ich(_) => lemma_ni_ich(o1, o2, f1, f2, fun),
+        Function::Il(_) => lemma_ni_il(o1, o2, f1, f2, fun), Function::Lf => lemma_ni_lf(o1, o2, f1, f2, fun),
+        Function::Nel => lemma_ni_nel(o1, o2, f1, f2, fun), Function::Print(_) => lemma_ni_print(o1, o2, f1, f2, fun),
+        Function::Rep(_) => lemma_ni_rep(o1, o2, f1, f2, fun), Function::Ri => lemma_ni_ri(o1, o2, f1, f2, fun),
+        Function::Ris => lemma_ni_ris(o1, o2, f1, f2, fun), Function::Rm(_) => lemma_ni_rm(o1, o2, f1, f2, fun),
+        Function::Scorc => lemma_ni_scorc(o1, o2, f1, f2, fun), Function::Scosc => lemma_ni_scosc(o1, o2, f1, f2, fun),
+        Function::Sd(_) => lemma_ni_sd(o1, o2, f1, f2, fun), Function::Sgr(_) => lemma_ni_sgr(o1, o2, f1, f2, fun),
+        Function::Si => lemma_ni_si(o1, o2, f1, f2, fun), Function::Sm(_) => lemma_ni_sm(o1, o2, f1, f2, fun),
+        Function::So => lemma_ni_so(o1, o2, f1, f2, fun), Function::Su(_) => lemma_ni_su(o1, o2, f1, f2, fun),
+        Function::Tbc(_) => lemma_ni_tbc(o1, o2, f1, f2, fun), Function::Vpa(_) => lemma_ni_vpa(o1, o2, f1, f2, fun),
+        Function::Vpr(_) => lemma_ni_vpr(o1, o2, f1, f2, fun), Function::Xtwinops(_) => {},
+    }
+}
+
+/// "silent" steps between control functions: reading and clearing the changed-line flags
+/// (`changes()`) and trimming the scrollback (`gc()`) leave everything visible untouched
+pub open spec fn silent(a: Terminal, b: Terminal) -> bool {
+    a.wf() ==> b.wf() && vis_eq(a, b)
+}
+
+/// [C12,C15] `changes()` is silent
+pub proof fn lemma_changes_silent(o: Terminal, f: Terminal, r: Vec<usize>)
+    requires
+        o.wf(),
+        o.other_buffer.cols == o.cols && o.other_buffer.rows == o.rows,
+        post_changes(o, f, r),
+    ensures
+        silent(o, f),
+{
+}
+
+pub proof fn lemma_vis_eq_trans(a: Terminal, b: Terminal, c: Terminal)
+    requires
+        vis_eq(a, b), vis_eq(b, c),
+    ensures
+        vis_eq(a, c), vis_eq(b, a),
+{
+    assert forall|r: int| 0 <= r < a.buffer.rows implies (#[trigger] a.buffer.row(r)).v() == c.buffer.row(r).v() by {
+        assert(a.buffer.row(r).v() == b.buffer.row(r).v());
+        assert(b.buffer.row(r).v() == c.buffer.row(r).v());
+    }
+    assert forall|r: int| 0 <= r < a.other_buffer.rows implies (#[trigger] a.other_buffer.row(r)).v() == c.other_buffer.row(r).v() by {
+        assert(a.other_buffer.row(r).v() == b.other_buffer.row(r).v());
+        assert(b.other_buffer.row(r).v() == c.other_buffer.row(r).v());
+    }
+    assert forall|r: int| 0 <= r < b.buffer.rows implies (#[trigger] b.buffer.row(r)).v() == a.buffer.row(r).v() by {
+        assert(a.buffer.row(r).v() == b.buffer.row(r).v());
+    }
+    assert forall|r: int| 0 <= r < b.other_buffer.rows implies (#[trigger] b.other_buffer.row(r)).v() == a.other_buffer.row(r).v() by {
+        assert(a.other_buffer.row(r).v() == b.other_buffer.row(r).v());
+    }
+}
+
+/// [C12] THE CHUNKING THEOREM (terminal side).  Two runs execute the same sequence of control
+/// functions `funs`; before each function either run may take a silent step (a `changes()` /
+/// `gc()` at a chunk boundary - this is all that distinguishes one chunking from another).
+/// Starting vis-equal, the runs are vis-equal after every function: same visible rows, cursor,
+/// pen, modes, margins, tabs, charsets, saved contexts on both screens.
+pub proof fn lemma_c12_chunking(tr1: Seq<Terminal>, tr2: Seq<Terminal>, mid1: Seq<Terminal>, mid2: Seq<Terminal>, funs: Seq<Function>, k: int)
+    requires
+        0 <= k <= funs.len(),
+        tr1.len() == funs.len() + 1, tr2.len() == funs.len() + 1, mid1.len() == funs.len(), mid2.len() == funs.len(),
+        tr1[0].wf(), tr2[0].wf(), vis_eq(tr1[0], tr2[0]),
+        forall|i: int| 0 <= i < funs.len() ==> !(#[trigger] funs[i] is Xtwinops),
+        forall|i: int| 0 <= i < funs.len() ==> silent(#[trigger] tr1[i], mid1[i]) && exec_post(mid1[i], tr1[i + 1], funs[i]),
+        forall|i: int| 0 <= i < funs.len() ==> silent(#[trigger] tr2[i], mid2[i]) && exec_post(mid2[i], tr2[i + 1], funs[i]),
+    ensures
+        vis_eq(tr1[k], tr2[k]), tr1[k].wf(), tr2[k].wf(),
+    decreases k,
+{
+    if k > 0 {
+        lemma_c12_chunking(tr1, tr2, mid1, mid2, funs, k - 1);
+        let i = k - 1;
+        assert(silent(tr1[i], mid1[i]) && exec_post(mid1[i], tr1[i + 1], funs[i]));
+        assert(silent(tr2[i], mid2[i]) && exec_post(mid2[i], tr2[i + 1], funs[i]));
+        assert(!(funs[i] is Xtwinops));
+        lemma_vis_eq_trans(tr1[i], tr2[i], mid2[i]);
+        lemma_vis_eq_trans(tr1[i], mid1[i], mid1[i]);
+        lemma_vis_eq_trans(mid1[i], tr1[i], mid2[i]);
+        lemma_ni_step(mid1[i], mid2[i], tr1[i + 1], tr2[i + 1], funs[i]);
+        lemma_exec_post_wf(mid1[i], tr1[i + 1], funs[i]);
+        lemma_exec_post_wf(mid2[i], tr2[i + 1], funs[i]);
+    }
+}
+
+/// every control function's postcondition includes the invariant
+pub proof fn lemma_exec_post_wf(o: Terminal, f: Terminal, fun: Function)
+    requires
+        o.wf(), exec_post(o, f, fun),
+    ensures
+        f.wf(),
+{
+}
+
 } // verus!
